@@ -24,3 +24,23 @@ def fill(P):
       "Validator loop proved with a forall-ballots invariant (every ballot, exact boundaries); constructor tables proved against the assumed abstract contract of Election.__init__; "
       "score totals and top-m election via the proved utils contracts; whole elections on small score profiles are a bounded check.",
       "Election.__init__ and PreferenceProfile(...) are assumed contracts (listed in trusted_base).", "DESIGN.md 4-C05")
+
+    P("C01", "other",
+      "contract-based deductive verification of the seat-filling kernel (elect_cands_from_set_ranking: exactly m, ValueError iff unbroken straddling tie; constructor tables) + bounded run-time audit of every rule",
+      "The shared top-m kernel and the constructors' exception tables are proved for all inputs; termination / exactly-m / partition-per-round of "
+      "whole counts of all 18 rules is a bounded small-scope exhaustive audit of the real code (labelled bounded).",
+      "Election._run_election is an assumed abstract contract inside constructor proofs; whole-run properties are bounded only.", "DESIGN.md 4-C01")
+    P("C03", "other",
+      "contract-based deductive verification of STV threshold arithmetic + bounded per-content audit of both transfer functions over every draw",
+      "Droop bound proved; the per-content weight equations of fractional_transfer / random_transfer (every draw enumerated through a scripted random.sample) and "
+      "round-to-round conservation are audited on small-scope exhaustive inputs (bounded).",
+      "", "DESIGN.md 4-C03")
+    P("C06", "exploration",
+      "bounded run-time contract check (pairwise margins by definition, tiers by brute-force minimal dominating sets)",
+      "No function of C06 is under a discharged contract yet; bounded exhaustive/sampled audit only.", "networkx reachability trusted.", "DESIGN.md 4-C06")
+    P("C11", "exploration",
+      "bounded run-time contract check of Ballot/PreferenceProfile (all orders of <=3 ballots from 12 contents)",
+      "Bounded only at present.", "", "DESIGN.md 4-C11")
+    P("C12", "exploration",
+      "bounded run-time contract check of the ballot-editing utilities (pushforward of the weight view)",
+      "Bounded only at present.", "", "DESIGN.md 4-C12")
